@@ -50,6 +50,7 @@ def replay_visibility(w, obligation, expects):
 
 # =========================================================================== visitor oracle: what the source binds, walked independently with `ast`
 import ast
+import inspect
 import itertools
 import json
 import random
@@ -99,14 +100,26 @@ def _params(args):
     return out
 
 
+def _doc_literal(st):
+    """(text, first line, last line) when the statement is a bare string literal, else None."""
+    if isinstance(st, ast.Expr) and isinstance(st.value, ast.Constant) and isinstance(st.value.value, str):
+        return (st.value.value, st.value.lineno, st.value.end_lineno)
+    return None
+
+
+def _body_doc(node):
+    return _doc_literal(node.body[0]) if node.body else None
+
+
 def expected_scope(body, scope_kind, guard=False, imports=None, pending=None, members=None, parent_node=None, cls_members=None, in_init=False, events=None, path=""):
     """Walk statements like CPython binds them, with Griffe's documented tie-break rules."""
     imports = {} if imports is None else imports
     members = {} if members is None else members
     pending = {} if pending is None else pending
     events = [] if events is None else events
-    for st in body:
+    for idx_, st in enumerate(body):
         direct_conditional = isinstance(parent_node, (ast.If, ast.ExceptHandler))
+        following = _doc_literal(body[idx_ + 1]) if idx_ + 1 < len(body) else None
         if isinstance(st, (ast.FunctionDef, ast.AsyncFunctionDef)):
             if in_init:
                 continue
@@ -118,10 +131,10 @@ def expected_scope(body, scope_kind, guard=False, imports=None, pending=None, me
                 labels.add("async")
             lineno = st.decorator_list[0].lineno if st.decorator_list else st.lineno
             if "property" in labels:
-                members[st.name] = dict(kind="attribute", runtime=not guard, lineno=st.lineno, endlineno=st.end_lineno, labels=labels, setter=False, deleter=False)
+                members[st.name] = dict(kind="attribute", runtime=not guard, lineno=st.lineno, endlineno=st.end_lineno, labels=labels, setter=False, deleter=False, doc=_body_doc(st))
                 events.append(("instance", path + st.name))
                 continue
-            fn = dict(kind="function", runtime=not guard, lineno=lineno, endlineno=st.end_lineno, labels=labels, params=_params(st.args), overloads=[], members={})
+            fn = dict(kind="function", runtime=not guard, lineno=lineno, endlineno=st.end_lineno, labels=labels, params=_params(st.args), overloads=[], members={}, doc=_body_doc(st))
             if any(d in OVERLOADS for d in decos):
                 pending.setdefault(st.name, []).append(fn)
                 events.append(("instance", path + st.name))
@@ -151,7 +164,7 @@ def expected_scope(body, scope_kind, guard=False, imports=None, pending=None, me
                 labels |= LABEL_DECOS.get(d, set())
             sub = {}
             members[st.name] = dict(kind="class", runtime=not guard, lineno=st.decorator_list[0].lineno if st.decorator_list else st.lineno,
-                                    endlineno=st.end_lineno, labels=labels, members=sub)
+                                    endlineno=st.end_lineno, labels=labels, members=sub, doc=_body_doc(st))
             events.append(("instance", path + st.name))
             expected_scope(st.body, "class", guard, dict(imports), {}, sub, st, None, False, events, path + st.name + ".")
             events.append(("members", path + st.name))
@@ -169,7 +182,12 @@ def expected_scope(body, scope_kind, guard=False, imports=None, pending=None, me
             for nm in names:
                 if nm in members and direct_conditional:
                     continue
-                members[nm] = dict(kind="attribute", runtime=not guard, lineno=st.lineno, endlineno=st.end_lineno, labels=None)
+                # Griffe's tie-break: a re-assignment that is not followed by a docstring literal keeps the docstring of the member it replaces
+                prev = members.get(nm) or {}
+                doc = following
+                if prev.get("doc") is not None and doc is None:
+                    doc = prev["doc"]
+                members[nm] = dict(kind="attribute", runtime=not guard, lineno=st.lineno, endlineno=st.end_lineno, labels=None, doc=doc)
                 events.append(("instance", path + nm))
         elif isinstance(st, ast.Import):
             if in_init:
@@ -246,6 +264,11 @@ def compare_scope(exp, obj, path, lines, out):
         gl, gel = (g.alias_lineno, g.alias_endlineno) if g.is_alias else (g.lineno, g.endlineno)
         if (gl, gel) != (e["lineno"], e["endlineno"]):
             out.append(f"{p}: span {gl}-{gel}, source {e['lineno']}-{e['endlineno']}")
+        if "doc" in e and not g.is_alias:
+            gd = None if g.docstring is None else (g.docstring.value, g.docstring.lineno, g.docstring.endlineno)
+            ed = e["doc"] if e["doc"] is None else (inspect.cleandoc(e["doc"][0]), e["doc"][1], e["doc"][2])
+            if gd != ed:
+                out.append(f"{p}: docstring {gd}, source has {'no docstring literal' if ed is None else ed}")
         if e.get("labels") is not None and not g.is_alias:
             missing = e["labels"] - set(g.labels)
             extra = {l for l in set(g.labels) - e["labels"] if l in {"property", "cached", "staticmethod", "classmethod", "abstractmethod", "async", "writable", "deletable", "dataclass"}}
@@ -318,7 +341,10 @@ def check_source(src):
 SIMPLE = ["x = 1", "x: int = 2", "x = y = 3", "y = 4", "import os",
           "def f(a, b=1): pass", "async def f(): pass", "@staticmethod\ndef g(a, /, *, k=0): pass", "def g(): pass",
           "@overload\ndef f(a: int): ...", "@overload\n@staticmethod\ndef f(a: str, b): ...", "@typing.overload\ndef g(): ...",
-          "@property\ndef p(self): return 1", "@p.setter\ndef p(self, v): pass", "@p.deleter\ndef p(self): pass", "from m2 import a, b as c"]
+          "@property\ndef p(self): return 1", "@p.setter\ndef p(self, v): pass", "@p.deleter\ndef p(self): pass", "from m2 import a, b as c",
+          # docstrings: ordinary, empty-string and multi-line literals on functions, classes, properties and after assignments
+          'def h():\n    """Doc of h."""\n    return 1', 'def h():\n    ""\n    return 1', 'class K:\n    ""', 'class K:\n    """Doc of K.\n\n    More.\n    """\n    k = 1\n    "Doc of k."',
+          'x = 7\n""', 'y = 8\n"""Doc of y."""', '@property\ndef p(self):\n    ""\n    return 1', 'x = 9\n"Doc of x."\n"not a docstring"']
 COMPOUND = ["if TYPE_CHECKING:\n{0}", "if TYPE_CHECKING:\n{0}\nelse:\n{1}", "if cond:\n{0}\nelse:\n{1}", "try:\n{0}\nexcept E:\n{1}", "for _ in z:\n{0}",
             "class C:\n{0}", "class C:\n{0}\n{1}", "if typing.TYPE_CHECKING:\n{0}\n{1}", "if cond:\n{0}", "if not typing.TYPE_CHECKING:\n{0}", "if x.TYPE_CHECKING:\n{0}",
             "if TYPE_CHECKING:\n    if cond:\n    {0}\n{1}", "class C:\n    def __init__(self):\n        self.x = self.w = 1\n{0}",
@@ -375,8 +401,8 @@ def replay_visitor(w, obligation, expects):
     import logging
     logging.disable(logging.CRITICAL)
     clause = (expects or {}).get("clause", "")
-    want = {"visit_if": ("runtime=",), "handle_attribute": ("missing from members", "not bound by", "kind "), "handle_function": ("overloads", "labels", "setter", "parameters", "kind ", "missing"),
-            "visit_classdef": ("span", "labels", "members-complete", "announced")}.get(clause)
+    want = {"visit_if": ("runtime=",), "handle_attribute": ("missing from members", "not bound by", "kind ", "docstring"), "handle_function": ("overloads", "labels", "setter", "parameters", "kind ", "missing"),
+            "visit_classdef": ("span", "labels", "members-complete", "announced"), "docstring": ("docstring",)}.get(clause)
     t0 = time.time()
     for src in gen_modules(0, 3000):
         if time.time() - t0 > 90:
